@@ -717,38 +717,45 @@ Section RootFacts.
      never restarts with a tip below what it finalised. *)
   Inductive reach : appdb -> N -> N -> Prop :=
   | rc_fresh : reach fresh 0 0
-  | rc_block : forall a H F txs c v expected a' r, reach a H F -> Forall (tx_wf ukey) txs ->
-      exec_txs (a_state a) (H + 1) [] no_snaps txs = (c, v) -> H + 1 < 2 ^ 32 ->
+  (* the genesis block: committed on the empty database at the genesis height g (InitGenesisState, Commit with no
+     previous root); it is never reverted *)
+  | rc_genesis : forall c g expected a' r, cache_good ukey [] c -> g < 2 ^ 32 ->
+      commit fresh c g (tree_root tree_empty) expected false = COk a' r -> reach a' g g
+  (* a block: ANY well-formed staged cache — whatever BeforeTransactionsExecute, the transactions (block_cache_good) and
+     AfterTransactionsExecute staged *)
+  | rc_block : forall a H F c expected a' r, reach a H F -> cache_good ukey (a_state a) c -> H + 1 < 2 ^ 32 ->
       commit a c (H + 1) (tree_root (a_tree a)) expected false = COk a' r -> reach a' (H + 1) F
-  | rc_revert : forall a H F expected a' r, reach a H F ->
+  | rc_revert : forall a H F expected a' r, reach a H F -> F < H ->
       revert a H (tree_root (a_tree a)) expected = ROk a' r -> reach a' (H - 1) F
   | rc_restart : forall a H F last lr a', reach a H F -> F <= last ->
       (init a last lr = IOk a' \/ init a last lr = IConflict a') -> reach a' last F
   | rc_finalize : forall a H F fh, reach a H F -> fh <= H -> reach (finalize a fh) H (N.max F (fh - 1)).
 
   Theorem reach_good : forall a H F, reach a H F ->
-    exists sts, Good a H sts /\ length sts = S (N.to_nat (H - F)) /\ F <= H /\ diff_at (a_diffs a) F = None.
+    exists sts, Good a H sts /\ length sts = S (N.to_nat (H - F)) /\ F <= H.
   Proof.
     induction 1.
-    - exists [[]]. split; [apply fresh_good|]. repeat split; auto. apply N.le_refl.
-    - destruct IHreach as [sts [G [L [HF D0]]]].
-      assert (Cg : cache_good ukey (a_state a) c).
-      { eapply block_cache_good; eauto. - apply empty_cache_good. - apply no_snaps_good. }
-      destruct (commit_good _ _ _ _ _ _ _ G Cg H3 H4) as [G' _].
-      exists (a_state a' :: sts). split; auto. split. { simpl. rewrite L. lia. } split. { lia. }
-      destruct G as [[hist HI] _].
-      assert (Hp : root_eqb (tree_root (a_tree a)) (tree_root (a_tree a)) = true) by (apply root_eqb_spec; auto).
-      destruct (commit_root_is_smt_of_state _ _ _ _ _ _ _ _ HI Cg Hp H4) as [ops [_ [_ [_ [_ [Ed _]]]]]].
-      rewrite Ed. rewrite diff_at_put_other; auto. lia.
-    - destruct IHreach as [sts [G [L [HF D0]]]].
+    - exists [[]]. split; [apply fresh_good|]. split; auto. apply N.le_refl.
+    - assert (Hp : root_eqb (tree_root tree_empty) (tree_root (a_tree fresh)) = true) by (apply root_eqb_spec; auto).
+      assert (HI : Inv fresh []).
+      { split; [reflexivity|]. split; [intros b o []|]. split; [|intros k v A; discriminate].
+        intros tk hv; simpl; split; [discriminate|]. intros [k [v [A _]]]; discriminate. }
+      destruct (commit_root_is_smt_of_state _ _ _ _ _ _ _ _ HI H Hp H1) as [ops [I' [Er [Ev [Et _]]]]].
+      exists [a_state a']. split.
+      + split; [eauto|]. split. { left. rewrite Et, Er. auto. } split; auto. split. { constructor. }
+        exists (a_state a'), []. auto.
+      + split; simpl. * rewrite N.sub_diag. auto. * apply N.le_refl.
+    - destruct IHreach as [sts [G [L HF]]].
+      destruct (commit_good _ _ _ _ _ _ _ G H1 H2 H3) as [G' _].
+      exists (a_state a' :: sts). split; auto. split. { simpl. rewrite L. lia. } lia.
+    - destruct IHreach as [sts [G [L HF]]].
       destruct sts as [|s [|s' rest]]; simpl in L; try lia.
-      + assert (H = F) by lia. subst. unfold StateRoot.revert in H1. rewrite D0 in H1. discriminate.
-      + destruct (revert_good a H s s' rest expected G) as [a'' [G'' [Ts'' [Df Rv]]]].
-        rewrite Rv in H1.
-        destruct (match expected with Some x => negb (root_eqb (tree_root (a_tree a'')) x) | None => false end);
-          inversion H1; subst.
-        exists (s' :: rest). split; auto. split. { simpl in *. lia. } split. { lia. } rewrite Df. auto.
-    - destruct IHreach as [sts [G [L [HF D0]]]].
+      destruct (revert_good a H s s' rest expected G) as [a'' [G'' [Ts'' [Df Rv]]]].
+      rewrite Rv in H2.
+      destruct (match expected with Some x => negb (root_eqb (tree_root (a_tree a'')) x) | None => false end);
+        inversion H2; subst.
+      exists (s' :: rest). split; auto. split. { simpl in *. lia. } lia.
+    - destruct IHreach as [sts [G [L HF]]].
       destruct (N.lt_ge_cases H last) as [Hlt|Hge].
       + rewrite (init_behind _ _ _ _ lr G Hlt) in H2. destruct H2; discriminate.
       + destruct (init_recovers_to_engine_tip a H sts last lr G Hge) as [a2 [G2 [Df Ei]]]. { rewrite L. lia. }
@@ -756,14 +763,9 @@ Section RootFacts.
         { rewrite Ei in H2. destruct (root_eqb (tree_root (a_tree a2)) lr); destruct H2 as [Q|Q]; inversion Q; auto. }
         subst a2. exists (skipn (N.to_nat (H - last)) sts). split; auto. split.
         { rewrite skipn_length, L. lia. }
-        split; auto. rewrite Df. auto.
-    - destruct IHreach as [sts [G [L [HF D0]]]].
+        auto.
+    - destruct IHreach as [sts [G [L HF]]].
       destruct (finalize_good a H sts fh F G L HF H1) as [G2 L2].
-      exists (firstn (S (N.to_nat (H - N.max F (fh - 1)))) sts). split; auto. split; auto. split. { lia. }
-      unfold finalize. destruct (fh =? 0) eqn:Z.
-      + apply N.eqb_eq in Z. subst. replace (N.max F (0 - 1)) with F by lia. auto.
-      + apply N.eqb_neq in Z. simpl. destruct (N.lt_ge_cases (N.max F (fh - 1)) fh).
-        * apply diff_at_finalized_gone; auto.
-        * rewrite diff_at_finalized_keep; auto. replace (N.max F (fh - 1)) with F by lia. auto.
+      exists (firstn (S (N.to_nat (H - N.max F (fh - 1)))) sts). split; auto. split; auto. lia.
   Qed.
 End RootFacts.
